@@ -1036,3 +1036,140 @@ Section DateTimeFacts.
     - destruct (p_timestamp p) as [g|] eqn:Eg; [eapply PathB; eauto|discriminate].
   Qed.
 End DateTimeFacts.
+
+(** * to_fixed_offset, to_datetime, to_datetime_with_timezone *)
+Lemma east_opt_spec o : east_opt o = (if (-86400 <? o) && (o <? 86400) then Some o else None).
+Proof. reflexivity. Qed.
+
+(** complete description of [to_fixed_offset] *)
+Theorem to_fixed_offset_spec p :
+  to_fixed_offset p =
+  Val (match p_offset p with
+       | None => Err NotEnough
+       | Some o => if (-86400 <? o) && (o <? 86400) then Ok o else Err OutOfRange
+       end).
+Proof.
+  unfold to_fixed_offset, ok_or. destruct (p_offset p) as [o|]; cbn [ebind bind]; [|reflexivity].
+  rewrite east_opt_spec. destruct ((-86400 <? o) && (o <? 86400)); reflexivity.
+Qed.
+
+Lemma from_local_single off local z : from_local_datetime off local = Val (MSingle z) ->
+  dz_off z = off /\ ndt_checked_sub_offset local off = Val (Some (dz_utc z)).
+Proof.
+  unfold from_local_datetime. intros H. apply bind_val in H. destruct H as ([u|] & Hu & H); inversion H; subst.
+  cbn [dz_off dz_utc]. auto.
+Qed.
+Lemma from_local_not_ambiguous off local a b : from_local_datetime off local <> Val (MAmbiguous a b).
+Proof.
+  unfold from_local_datetime. intros H. apply bind_val in H. destruct H as ([u|] & Hu & H); inversion H.
+Qed.
+
+Section ZonedFacts.
+  Hypothesis Hyp_from_ymd : forall y m d dt,
+    in_i32 y = true -> 0 <= m <= u32_max -> 0 <= d <= u32_max ->
+    Date.from_ymd_opt y m d = Val (Some dt) ->
+    Date.d_year dt = y /\ Date.d_month dt = Val m /\ Date.d_day dt = Val d.
+  Hypothesis Hyp_from_isoywd : forall y w wd dt,
+    in_i32 y = true -> 0 <= w <= u32_max -> 0 <= wd <= 6 ->
+    Date.from_isoywd_opt y w wd = Val (Some dt) ->
+    exists iw, Date.d_iso_week dt = Val iw /\ Date.iw_year iw = y /\ Date.iw_week iw = w /\
+               Date.d_weekday dt = Val wd.
+
+  (** a zoned result [z]: its local reading agrees with every supplied date / time field and with
+      the timestamp; its offset is the supplied one *)
+  Definition zoned_sound (p : parsed) (z : dtz) : Prop :=
+    exists local,
+      ndt_checked_sub_offset local (dz_off z) = Val (Some (dz_utc z)) /\
+      -86400 < dz_off z < 86400 /\
+      date_sound p (nd_date local) /\ time_sound p (nd_time local) /\ ts_sound p local (dz_off z) /\
+      (forall o, p_offset p = Some o -> dz_off z = o).
+
+  Theorem to_datetime_sound_modulo_date p z :
+    typed p -> to_datetime p = Val (Ok z) ->
+    zoned_sound p z /\ (p_offset p = None -> dz_off z = 0 /\ p_timestamp p <> None).
+  Proof.
+    intros T H. unfold to_datetime in H.
+    apply ebind_ok in H. destruct H as (offset & Hoff & H).
+    apply ebind_ok in H. destruct H as (local & Hlocal & H).
+    apply ebind_ok in H. destruct H as (off' & Hoff' & H).
+    apply bind_val in H. destruct H as (m & Hm & H).
+    unfold ok_or in Hoff'. rewrite east_opt_spec in Hoff'.
+    destruct ((-86400 <? offset) && (offset <? 86400)) eqn:Er; inversion Hoff'; subst off'. clear Hoff'.
+    destruct m as [|t|a b]; inversion H; subst t. clear H.
+    apply from_local_single in Hm. destruct Hm as [Hz Hu].
+    assert (Hi : in_i32 offset = true) by (unfold in_i32, in_range, i32_min, i32_max; lia).
+    destruct (to_naive_datetime_sound_modulo_date Hyp_from_ymd Hyp_from_isoywd p offset local T Hi Hlocal) as (DS & TS & SS).
+    split.
+    - exists local. rewrite Hz. split; [exact Hu|]. split; [lia|]. split; [exact DS|]. split; [exact TS|].
+      split; [exact SS|]. intros o Ho. rewrite Ho in Hoff. inversion Hoff. reflexivity.
+    - intros Hn. rewrite Hn in Hoff. destruct (p_timestamp p); inversion Hoff as [Ho]. split; [rewrite Hz; symmetry; exact Ho|discriminate].
+  Qed.
+
+  Theorem to_datetime_with_timezone_sound_modulo_date p tz z :
+    typed p -> -86400 < tz < 86400 -> to_datetime_with_timezone p tz = Val (Ok z) ->
+    zoned_sound p z /\ dz_off z = tz.
+  Proof.
+    intros T Htz H. unfold to_datetime_with_timezone in H.
+    apply ebind_ok in H. destruct H as (guessed & Hg & H).
+    apply ebind_ok in H. destruct H as (local & Hlocal & H).
+    apply bind_val in H. destruct H as (m & Hm & H).
+    destruct m as [|t|a b]; [discriminate| |exfalso; eapply from_local_not_ambiguous; eauto].
+    apply from_local_single in Hm. destruct Hm as [Hz Hu].
+    assert (Hcheck : (match p_offset p with Some offset => dz_off t =? offset | None => true end) = true /\ t = z).
+    { destruct (match p_offset p with Some offset => dz_off t =? offset | None => true end); inversion H; auto. }
+    destruct Hcheck as [Hc ->]. clear H.
+    assert (Hgv : guessed = tz \/ (guessed = 0 /\ p_timestamp p = None)).
+    { destruct (p_timestamp p) as [g|].
+      - apply ebind_ok in Hg. destruct Hg as (dt & _ & Hg). inversion Hg. auto.
+      - inversion Hg. auto. }
+    assert (Hi : in_i32 guessed = true) by (unfold in_i32, in_range, i32_min, i32_max; lia).
+    destruct (to_naive_datetime_sound_modulo_date Hyp_from_ymd Hyp_from_isoywd p guessed local T Hi Hlocal) as (DS & TS & SS).
+    split; [|exact Hz].
+    exists local. rewrite Hz. split; [exact Hu|]. split; [exact Htz|]. split; [exact DS|]. split; [exact TS|]. split.
+    - destruct Hgv as [->|[-> Hn]]; [exact SS|]. intros g Hg'. congruence.
+    - intros o Ho. rewrite Ho in Hc. rewrite Hz in Hc. lia.
+  Qed.
+End ZonedFacts.
+
+(** * The two constructor facts as named propositions (statements of Proofs/Date.v) *)
+Definition Fact_from_ymd : Prop := forall y m d dt,
+  in_i32 y = true -> 0 <= m <= u32_max -> 0 <= d <= u32_max ->
+  Date.from_ymd_opt y m d = Val (Some dt) ->
+  Date.d_year dt = y /\ Date.d_month dt = Val m /\ Date.d_day dt = Val d.
+Definition Fact_from_isoywd : Prop := forall y w wd dt,
+  in_i32 y = true -> 0 <= w <= u32_max -> 0 <= wd <= 6 ->
+  Date.from_isoywd_opt y w wd = Val (Some dt) ->
+  exists iw, Date.d_iso_week dt = Val iw /\ Date.iw_year iw = y /\ Date.iw_week iw = w /\
+             Date.d_weekday dt = Val wd.
+
+(** * Worked examples (the documentation example of Parsed; the repaired defect) *)
+Definition ex_fields (weekday : Z) : parsed :=
+  pput F_offset (Some 0) (pput F_second (Some 40) (pput F_minute (Some 26)
+  (pput F_hour_mod_12 (Some 4) (pput F_hour_div_12 (Some 0)
+  (pput F_year (Some 2014) (pput F_month (Some 12) (pput F_day (Some 31)
+  (pput F_weekday (Some weekday) parsed_new)))))))).
+Lemma ex_doc_ok : to_datetime (ex_fields 2) =
+  Val (Ok (mk_dtz (mk_ndt (match Date.from_ymd_opt 2014 12 31 with Val (Some d) => d | _ => 0 end)
+                          (Time.mk_time 16000 0)) 0)).
+Proof. vm_compute. reflexivity. Qed.
+Lemma ex_doc_wrong_weekday : to_datetime (ex_fields 3) = Val (Err Impossible).
+Proof. vm_compute. reflexivity. Qed.
+Lemma ex_typed : typed (ex_fields 2).
+Proof.
+  unfold ex_fields. repeat (apply typed_pput; [|cbn; unfold in_i32, in_range, i32_min, i32_max, u32_max; lia]).
+  apply typed_new.
+Qed.
+(** the repaired defect: the leap-second step before the earliest representable second *)
+Definition ex_min_leap : parsed := pput F_second (Some 60) (pput F_timestamp (Some (-8334601228800)) parsed_new).
+Lemma ex_min_leap_out_of_range : to_naive_datetime_with_offset ex_min_leap 0 = Val (Err OutOfRange).
+Proof. vm_compute. reflexivity. Qed.
+Lemma ex_leap_second : exists v,
+  to_naive_datetime_with_offset (pput F_second (Some 60) (pput F_timestamp (Some 1341100800) parsed_new)) 0 = Val (Ok v)
+  /\ Time.tsecs (nd_time v) = 86399 /\ Time.tfrac (nd_time v) = 1000000000.
+Proof. eexists. split; [vm_compute; reflexivity|]. split; reflexivity. Qed.
+Lemma ex_year_groups :
+  resolve_year None None (Some 69) = Val (Ok (Some 2069)) /\ resolve_year None None (Some 70) = Val (Ok (Some 1970)) /\
+  resolve_year None (Some 19) (Some 84) = Val (Ok (Some 1984)) /\ resolve_year (Some (-5)) (Some 0) None = Val (Err Impossible) /\
+  resolve_year None (Some 20) None = Val (Err NotEnough) /\
+  resolve_year None (Some 21474836) (Some 48) = Val (Err OutOfRange).
+Proof. repeat split; vm_compute; reflexivity. Qed.
